@@ -6,8 +6,8 @@ set -u
 export GOFLAGS=-mod=mod GOPROXY=off GOSUMDB=off GOTOOLCHAIN=local
 SRC="$1"; ID="$2"
 WT="/tmp/mut/benign-$ID-$$"
-git -C /repo worktree prune
-git -C /repo worktree add -q --detach "$WT" HEAD || exit 2
+mkdir -p /tmp/mut
+flock /tmp/mut/.wtlock git -C /repo worktree add -q --detach "$WT" HEAD || exit 2
 trap 'git -C /repo worktree remove --force "$WT" >/dev/null 2>&1; rm -rf /tmp/vd/$ID-$$' EXIT
 git -C "$WT" apply "$SRC/patch.diff" || { echo "$ID: patch does not apply"; exit 2; }
 (cd "$WT" && go build ./... && go test -vet=off -count=1 ./... >/dev/null 2>&1) || { echo "$ID: REJECT (does not build or suite fails)"; exit 1; }
